@@ -28,9 +28,15 @@ const (
 )
 
 func NewPair(ops pscmp.OpTable) *Pair {
+	return NewPairBudget(ops, ImplMaxOps, ModelMaxSteps)
+}
+
+// NewPairBudget sets explicit budgets; implOps must be well above modelSteps
+// (the model counts at least one step per implementation operation).
+func NewPairBudget(ops pscmp.OpTable, implOps, modelSteps int) *Pair {
 	p := &Pair{I: postscript.NewInterpreter(), M: psmodel.New(), Ops: ops}
-	p.I.MaxOps = ImplMaxOps
-	p.M.MaxSteps = ModelMaxSteps
+	p.I.MaxOps = implOps
+	p.M.MaxSteps = modelSteps
 	return p
 }
 
